@@ -200,13 +200,46 @@ func (n *normalizer) wantsInlining(fn *types.Func, h *ast.FuncDecl) bool {
 	}
 	hasLoop := false
 	ast.Inspect(h.Body, func(x ast.Node) bool {
-		switch x.(type) {
+		switch y := x.(type) {
 		case *ast.ForStmt, *ast.RangeStmt:
 			hasLoop = true
+		case *ast.CallExpr:
+			// a wrapper around the pool (getParts / putParts): the typestate of the
+			// pooled value is followed within one function
+			if isPoolFn(calleeOf(p.Info, y)) {
+				hasLoop = true
+			}
 		}
 		return !hasLoop
 	})
 	return hasLoop
+}
+
+// onlyParamsAndGlobals: every identifier the call reads is a parameter of h, a
+// package-level object, a constant or a field/method name.
+func (n *normalizer) onlyParamsAndGlobals(h *ast.FuncDecl, call *ast.CallExpr) bool {
+	info := n.p.Info
+	params := map[types.Object]bool{}
+	for _, po := range paramObjs(info, h) {
+		params[po] = true
+	}
+	if ro := n.p.recvObj(h); ro != nil {
+		params[ro] = true
+	}
+	ok := true
+	ast.Inspect(call, func(x ast.Node) bool {
+		if id, isId := x.(*ast.Ident); isId {
+			o := info.Uses[id]
+			if v, isVar := o.(*types.Var); isVar && !v.IsField() && !params[o] && v.Parent() != n.p.P.Types.Scope() {
+				ok = false
+			}
+		}
+		if _, isLit := x.(*ast.FuncLit); isLit {
+			ok = false
+		}
+		return ok
+	})
+	return ok
 }
 
 var inlineCounter int
@@ -354,6 +387,31 @@ func (n *normalizer) inlinePass(fd *ast.FuncDecl) (bool, error) {
 				if c, ok := s.X.(*ast.CallExpr); ok {
 					call = c
 				}
+			case *ast.DeferStmt:
+				// defer h(x) with h's body one call statement over its parameters and
+				// package-level variables: that call, deferred (the arguments are
+				// evaluated at the defer statement in both forms)
+				if fn := calleeOf(info, s.Call); fn != nil {
+					h := p.FuncObj[fn]
+					if h != nil && h != fd && h.Body != nil && len(h.Body.List) == 1 && n.wantsInlining(fn, h) && (h.Type.Results == nil || len(h.Type.Results.List) == 0) {
+						if es, ok := h.Body.List[0].(*ast.ExprStmt); ok {
+							if inner, ok := es.X.(*ast.CallExpr); ok && n.onlyParamsAndGlobals(h, inner) {
+								if subst, pre, okBind := n.bindCall(h, s.Call); okBind {
+									if t, err := n.flatText(inner.Pos(), inner.End(), []ast.Node{inner}, subst); err == nil {
+										text := strings.Join(append(append([]string(nil), pre...), "defer "+t), "; ")
+										if err := n.edit(st.Pos(), st.End(), text); err != nil {
+											return false, err
+										}
+										done[st] = true
+										changed = true
+										n.notes = append(n.notes, fmt.Sprintf("%s: the deferred call of %s is replaced by the call it makes", fd.Name.Name, h.Name.Name))
+									}
+								}
+							}
+						}
+					}
+				}
+				continue
 			}
 			if call == nil {
 				continue
@@ -1654,6 +1712,38 @@ func (w *World) inlinedParserWorld(key string) (*World, []string, error) {
 		notes = append(notes, n.notes...)
 		cur = w2
 		any = true
+	}
+	// then the plain passes, as for the v4 score: helpers called at statement
+	// level (a cursor's advance(), pool wrappers), single-expression methods of a
+	// local record (cur.expected()), and the record itself split into scalars
+	for _, f := range []func(n *normalizer, fd *ast.FuncDecl) (bool, error){
+		func(n *normalizer, fd *ast.FuncDecl) (bool, error) { return n.inlinePass(fd) },
+		func(n *normalizer, fd *ast.FuncDecl) (bool, error) { return n.sroaPass(fd) },
+	} {
+		for iter := 0; iter < 6; iter++ {
+			n := cur.newNormalizer(key)
+			fd := cur.Pkgs[key].Funcs["ParseVector"]
+			if fd == nil || fd.Body == nil {
+				break
+			}
+			ch, err := f(n, fd)
+			if err != nil {
+				// a pass that cannot be applied leaves the program as it is
+				notes = append(notes, "pass not applied: "+err.Error())
+				break
+			}
+			if !ch {
+				break
+			}
+			w2, err := cur.applyEdits(n)
+			if err != nil {
+				notes = append(notes, "pass not applied: "+err.Error())
+				break
+			}
+			notes = append(notes, n.notes...)
+			cur = w2
+			any = true
+		}
 	}
 	if !any {
 		return nil, nil, nil
